@@ -81,6 +81,37 @@ theorem reader_init (src : Src) (buf : Slice) (h : Heap) (hf : h.faults = []) :
       RInv (MRd.newBytes buf) h) :=
   ⟨RInv.newDefault src h hf, fun h1 h2 => RInv.newBytes buf h hf h1 h2⟩
 
+/-- history_slice_stable (the statement to cite): start from `NewDefaultReader(src)` on any fault-free heap, or
+    from `NewBytesReader(buf)` on any slice of caller memory; run ANY history (operations, Releases,
+    environment steps, user allocations); let Next, Peek or SkipDecoder.Next return a slice; run ANY
+    Release-free history.  Then the slice shows exactly the bytes it showed when it was returned, and no
+    fault was logged anywhere on the way.  (Histories: `ReadBinary` only into Go-heap destinations
+    (`GcDst`) — what the library itself and the harness pass; a destination aliasing the reader's own
+    buffers is outside the model.) -/
+theorem history_slice_stable (src : Src) (buf : Slice) (h0 : Heap) (hf : h0.faults = [])
+    (r0 : MRd) (hr0 : r0 = MRd.newDefault src ∨
+      (r0 = MRd.newBytes buf ∧ buf.len ≤ buf.cap ∧
+        ∃ x, h0.obj? buf.obj = some x ∧ buf.off + buf.cap ≤ x.data.length ∧ x.owner = .caller))
+    {a : RSt} (t1 : RStepsR (r0, h0) a) (n : Int) (ty : UInt8) (s : Slice) (r1 : MRd) (h1 : Heap)
+    (hn : a.1.next a.2 n = (.ok s, r1, h1) ∨ a.1.peek a.2 n = (.ok s, r1, h1) ∨
+      memSkipDecNext a.1 a.2 ty = .ok (s, r1, h1))
+    {b : RSt} (t2 : RSteps (r1, h1) b) : b.2.view s = h1.view s ∧ b.2.faults = [] := by
+  have hi0 : RInv r0 h0 := by
+    rcases hr0 with rfl | ⟨rfl, hl, hb⟩
+    · exact RInv.newDefault src h0 hf
+    · exact RInv.newBytes buf h0 hf hl hb
+  have hia : RInv a.1 a.2 := t1.inv hi0
+  have hi1 : RInv r1 h1 := by
+    rcases hn with hn | hn | hn
+    · have := (next_ok a.1 a.2 n hia).1.inv; rw [hn] at this; exact this
+    · have := (peek_ok a.1 a.2 n hia).1.inv; rw [hn] at this; exact this
+    · exact (memSkipDecNext_ok a.1 a.2 ty s r1 h1 hn hia).1.inv
+  refine ⟨?_, (t2.ok hi1).inv.nofault⟩
+  rcases hn with hn | hn | hn
+  · exact slice_stable a.1 a.2 n s r1 h1 hia (Or.inl hn) t2
+  · exact slice_stable a.1 a.2 n s r1 h1 hia (Or.inr hn) t2
+  · exact slice_stable_skipdecoder a.1 a.2 ty s r1 h1 hia hn t2
+
 /-! ## ReaderSkipDecoder -/
 
 /-- readerSkip_copy_then_free: one `growSlow` allocates a fresh pool buffer (a new object), copies the
